@@ -54,6 +54,7 @@ type cpEvent struct {
 }
 
 type cpResult struct {
+	Replaced   map[int]int // new value -> the value Set reported as replaced (same key)
 	Installed  map[int]int // value -> key
 	Weight     map[int]uint32
 	Atomic     []cpEvent
@@ -220,7 +221,11 @@ func (r *cpRun) do(op cpOp) {
 	case "set":
 		v := r.newVal(op.W)
 		r.noteWrite(v)
-		c.Set(k, v)
+		if old, ok := c.Set(k, v); !ok {
+			r.mu.Lock()
+			r.res.Replaced[v] = old
+			r.mu.Unlock()
+		}
 		r.installed(k, v)
 	case "setifabsent":
 		v := r.newVal(op.W)
@@ -272,7 +277,7 @@ func (r *cpRun) do(op cpOp) {
 
 // runCP executes the program and collects the end state after quiescence.
 func runCP(c cpCase, s3 bool) *cpResult {
-	res := &cpResult{Installed: map[int]int{}, Weight: map[int]uint32{}, Present: map[int]int{}, PresentW: map[int]uint32{}}
+	res := &cpResult{Replaced: map[int]int{}, Installed: map[int]int{}, Weight: map[int]uint32{}, Present: map[int]int{}, PresentW: map[int]uint32{}}
 	r := &cpRun{c: c, res: res}
 	if c.Procs > 0 {
 		defer runtime.GOMAXPROCS(runtime.GOMAXPROCS(c.Procs))
@@ -450,6 +455,22 @@ func cpConservation(c cpCase, res *cpResult) error {
 		}
 		if e.Cause == otter.CauseOverflow && res.Weight[e.Val] == 0 {
 			return fmt.Errorf("Overflow reported for the zero-weight value (%d,%d)", e.Key, e.Val)
+		}
+	}
+	// For one key the atomic handler sees removals in the order the values were installed: Set(k, new) returned old,
+	// so old was installed before new; if both were reported, old's report precedes new's.
+	pos := map[int]int{}
+	for i, e := range res.Atomic {
+		pos[e.Val] = i
+	}
+	for nv, ov := range res.Replaced {
+		pn, okn := pos[nv]
+		po, oko := pos[ov]
+		if okn && !oko {
+			return fmt.Errorf("value %d (key %d) replaced value %d and was itself reported as removed, but the replaced value was never reported", nv, res.Installed[nv], ov)
+		}
+		if okn && oko && po > pn {
+			return fmt.Errorf("key %d: OnAtomicDeletion reported value %d before value %d although %d was installed first (Set returned it as the replaced value)", res.Installed[nv], nv, ov, ov)
 		}
 	}
 	seenD := map[int]cpEvent{}
@@ -698,13 +719,13 @@ func TestC05_S4Bookkeeping(t *testing.T) {
 
 func TestC06_S3Events(t *testing.T) {
 	runCPProp(t, cpOracle{prop: "C06", test: "S3Events", s3: true, check: cpConservation,
-		rule:       "oracle at quiescence: no value reported twice to either handler, every atomic report matched by exactly one OnDeletion, values written == values present + values reported, present values never reported, reported values were written to that key, Overflow only in bounded caches and never for zero-weight values, Expiration only with an expiration policy; non-trivial = >= 2 removals reported",
+		rule:       "oracle at quiescence: no value reported twice to either handler, every atomic report matched by exactly one OnDeletion, values written == values present + values reported, present values never reported, reported values were written to that key, per key the atomic reports follow the install chain given by Set's return values, Overflow only in bounded caches and never for zero-weight values, Expiration only with an expiration policy; non-trivial = >= 2 removals reported",
 		nontrivial: cpHasRemovals})
 }
 
 func TestC06_S4Events(t *testing.T) {
 	runCPProp(t, cpOracle{prop: "C06", test: "S4Events", check: cpConservation,
-		rule:       "oracle at quiescence: no value reported twice to either handler, every atomic report matched by exactly one OnDeletion, values written == values present + values reported, present values never reported, reported values were written to that key, Overflow only in bounded caches and never for zero-weight values, Expiration only with an expiration policy; non-trivial = >= 2 removals reported",
+		rule:       "oracle at quiescence: no value reported twice to either handler, every atomic report matched by exactly one OnDeletion, values written == values present + values reported, present values never reported, reported values were written to that key, per key the atomic reports follow the install chain given by Set's return values, Overflow only in bounded caches and never for zero-weight values, Expiration only with an expiration policy; non-trivial = >= 2 removals reported",
 		nontrivial: cpHasRemovals})
 }
 
